@@ -4,4 +4,19 @@ CHECKS = {
   "note": "Trusted: numpy/LAPACK as reference, my rank-planting generator (re-verified by numpy per case), sanitizer build flags. Sizes n<=9, m<=19, defect<=3.",
   "technique": "property-based testing (Hypothesis) with differential oracle against numpy reference, under ASan/UBSan",
  },
+ "C02": {
+  "text": "Generated-input search: the four algorithms are run on the same rank-planted problems through GNU_gama::Adj and compared pairwise (defect, x, r, v'Pv, every q_xx and q_bb) with a conditioning-proportional tolerance; provably non-resolving regularisation subsets must be refused by all four. Exploration with bounded sizes.",
+  "note": "Trusted: numpy condition numbers for tolerances and for classifying subsets as resolving / non-resolving; n<=9.",
+  "technique": "property-based differential testing between the four solvers (Hypothesis), sanitized",
+ },
+ "C03": {
+  "text": "Generated-input search: all q_xx(i,j), q_bb(i,j) index pairs of every algorithm are checked against algebraic identities (symmetry, PSD, NQN=N, QNQ=Q, projector, trace=rank) and a numpy reference for the chosen regularisation.",
+  "note": "Trusted: numpy reference; tolerance 1e-8*cond^2; n<=9, m<=19.",
+  "technique": "property-based testing (Hypothesis) with algebraic-invariant and reference oracles",
+ },
+ "C04": {
+  "text": "Model-based history generation: sequences of up to 30 API calls against one solver object; every answer is compared with a fresh object asked only that question and with the numpy reference. The sequence shrinks as one value; sanitizer aborts are violations.",
+  "note": "Trusted: driver gdrv_adj (pure function of its command stream), numpy to admit only resolving min_x subsets.",
+  "technique": "stateful / model-based property testing (Hypothesis-generated call histories vs fresh-object oracle)",
+ },
 }
